@@ -35,9 +35,19 @@ DEFINITE = (
 UNDECIDED_MARKERS = ("rlimit", "resource limit", "timeout", "timed out", "could not be proved", "while loop: Resource")
 
 
+def enabled_units():
+    p = os.path.join(VERIF, "units", "ENABLED")
+    if not os.path.exists(p):
+        return None
+    return {l.strip() for l in open(p) if l.strip() and not l.startswith("#")}
+
+
 def all_units():
     res = {}
+    en = enabled_units()
     for p in sorted(glob.glob(os.path.join(VERIF, "units", "*", "unit.toml"))):
+        if en is not None and os.path.basename(os.path.dirname(p)) not in en:
+            continue
         with open(p, "rb") as f:
             cfg = tomllib.load(f)
         res[os.path.basename(os.path.dirname(p))] = cfg
